@@ -75,6 +75,105 @@ func caseLine(rsum, dsum, file []byte) string {
 	return join("20", "("+strings.Join(htab, " ")+")", "("+strings.Join(itab, " ")+")", hx(rsum), hx(dsum), hx(file))
 }
 
+// an entry of several MiB (incompressible body): damage far into the body, at
+// the very end and past the end must be noticed just like damage at the start.
+// Implementation only: the files are too large for case lines.
+func runC13Large(o *Out, dir string) {
+	data := make([]byte, 6<<20)
+	x := uint64(o.Seed)*2862933555777941757 + 3037000493
+	for i := range data {
+		x = x*6364136223846793005 + 1442695040888963407
+		data[i] = byte(x >> 56)
+	}
+	rsum, dsum := sum([]byte("input:large")), sum([]byte("args:large"))
+	f, err := cache.Create(dir, sha1.New(), rsum, dsum)
+	if err != nil {
+		o.Violate("create-fails", "large", err.Error())
+		return
+	}
+	f.Write(data)
+	if err := f.Close(); err != nil {
+		o.Violate("close-fails", "large", err.Error())
+		return
+	}
+	path := filepath.Join(dir, leafName(rsum, dsum))
+	file, err := ioutil.ReadFile(path)
+	os.Remove(path)
+	if err != nil || len(file) < 60+(5<<20) {
+		o.Violate("file-missing", "large", "")
+		return
+	}
+	if res := implOpen(dir, rsum, dsum, file); res != "ok "+hx(data) {
+		o.Violate("open-rejects-finished-large", "large entry", res[:minInt(40, len(res))])
+	}
+	n := len(file)
+	for _, off := range []int{60, 60 + 1<<20, 60 + 4<<20 - 1, 60 + 4<<20, 60 + 4<<20 + 1, 60 + 5<<20 + 12345, n - 2, n - 1} {
+		m := append([]byte(nil), file...)
+		m[off] ^= 0x10
+		if res := implOpen(dir, rsum, dsum, m); res != "none" {
+			o.Violate("open-accepts-corrupt-large", fmt.Sprintf("large entry (%d bytes), byte %d flipped", n, off), res[:minInt(40, len(res))])
+		}
+	}
+	for _, k := range []int{n - 1, n - 4096, 60 + 4<<20 + 7, 60 + 4<<20, 60 + 1<<20} {
+		if res := implOpen(dir, rsum, dsum, file[:k]); res != "none" {
+			o.Violate("open-accepts-truncated-large", fmt.Sprintf("large entry cut to %d of %d bytes", k, n), res[:minInt(40, len(res))])
+		}
+	}
+	if res := implOpen(dir, rsum, dsum, append(append([]byte(nil), file...), 0)); res != "none" {
+		o.Violate("open-accepts-extended-large", "large entry with one byte appended", res[:minInt(40, len(res))])
+	}
+}
+
+// two (three) entries open at the same time, read in an order different from
+// the order they were opened in: each yields exactly the bytes written to it
+func runC13Interleaved(o *Out, dir string) {
+	type ent struct {
+		rsum, dsum, data []byte
+	}
+	var es []ent
+	for i, body := range [][]byte{bytes.Repeat([]byte("first entry "), 500), []byte("second"), bytes.Repeat([]byte{7, 8, 9}, 30000)} {
+		e := ent{sum([]byte(fmt.Sprintf("input:il%d", i))), sum([]byte(fmt.Sprintf("args:il%d", i))), body}
+		f, err := cache.Create(dir, sha1.New(), e.rsum, e.dsum)
+		if err != nil {
+			o.Violate("create-fails", "interleaved", err.Error())
+			return
+		}
+		f.Write(body)
+		f.Close()
+		es = append(es, e)
+	}
+	for _, order := range [][]int{{0, 1, 2}, {2, 1, 0}, {1, 2, 0}, {0, 2, 1}} {
+		files := make([]*cache.File, len(es))
+		ok := true
+		for i, e := range es {
+			f, err := cache.Open(dir, sha1.New(), e.rsum, e.dsum)
+			if err != nil {
+				o.Violate("open-rejects-finished-interleaved", fmt.Sprintf("entry %d", i), err.Error())
+				ok = false
+				break
+			}
+			files[i] = f
+		}
+		if ok {
+			for _, i := range order {
+				got, err := ioutil.ReadAll(files[i])
+				if err != nil || !bytes.Equal(got, es[i].data) {
+					o.Violate("interleaved-read", fmt.Sprintf("three entries open, read order %v", order),
+						fmt.Sprintf("entry %d: %d bytes read, %d written, err %v", i, len(got), len(es[i].data), err))
+				}
+			}
+		}
+		for _, f := range files {
+			if f != nil {
+				f.Close()
+			}
+		}
+	}
+	for _, e := range es {
+		os.Remove(filepath.Join(dir, leafName(e.rsum, e.dsum)))
+	}
+}
+
 func runC13(o *Out) {
 	dir, err := ioutil.TempDir("", "verif-c13-")
 	if err != nil {
@@ -193,6 +292,8 @@ func runC13(o *Out) {
 			os.Remove(path)
 		}
 	}
+	runC13Large(o, dir)
+	runC13Interleaved(o, dir)
 	// a reader must not be confused by io.Copy semantics: sanity of ReadAll on big entries is
 	// covered by finished-multiblock in the thorough tier
 	_ = io.EOF
